@@ -116,6 +116,43 @@ def psOp (ps : PS) (fn : String) (toks : List String) : PS × String :=
     | .error (.oom n) => (ps, "oom " ++ toString n)
   | _ => (ps, "bad-op")
 
+
+/-! ### recover proposals: `recover seed= phase= prop= sr= vars=<v>,<v>…`, v = sh<min>.dr<d>.dh<d>.t<R|N|7>.s<sig>.v<via> -/
+
+structure RVar where
+  shift : Nat := 0
+  dr : Int := 0
+  dh : Int := 0
+  typ : PType := .other
+deriving Inhabited
+
+def parseRVar (s : String) : RVar :=
+  (s.splitOn ".").foldl (fun v f =>
+    if f.startsWith "sh" then { v with shift := ((f.drop 2).toString.toNat?).getD 0 }
+    else if f.startsWith "dr" then { v with dr := ((f.drop 2).toString.toInt?).getD 0 }
+    else if f.startsWith "dh" then { v with dh := ((f.drop 2).toString.toInt?).getD 0 }
+    else if f == "tR" then { v with typ := .recover }
+    else if f == "tN" then { v with typ := .normal }
+    else v) {}
+
+/-- every variant carries a signature that verifies against no validator: sigOk = false.  The node of the op is abstracted
+to height 10, round 3 (the proposal's height and round are deltas), flags from the op line; the model's own state is
+threaded through the variants. -/
+def recoverOp (toks : List String) : String :=
+  let prop := argI toks "prop" != 0
+  let sr := argI toks "sr" != 0
+  let vars := (splitComma ((arg? toks "vars").getD "")).map parseRVar
+  let st0 : ConsView := { height := 10, round := 3, hasProposal := prop, commitStep := false, stepRecover := sr,
+                          recoverCount := 0, recoverSet := false, votesHeld := 1 }
+  let (_, outs) := vars.foldl (fun (acc : ConsView × List String) v =>
+    let st := acc.1
+    let p : ProposalIn := { type := v.typ, height := ((st.height : Int) + v.dh).toNat, round := st.round + v.dr, polRound := -1,
+                            total := 1, sigOk := false }
+    let st' := (setProposalFull st p v.shift 673).1
+    -- votesHeld is reset to a positive number so that a later replacement of the vote set would show again
+    ({ st' with votesHeld := 1 }, acc.2 ++ [b01 st.hasProposal ++ b01 st.stepRecover ++ ":" ++ b01 (decide (st' ≠ st))])) (st0, [])
+  "prop=" ++ b01 prop ++ " sr=" ++ b01 sr ++ " | " ++ " ".intercalate outs
+
 /-- the claim itself for the simulation ops (Props.C16 for the modelled handlers; the fuzz searches the rest): whatever was
 injected, the consensus routine is alive, unsigned input changed nothing, no single message caused a large allocation;
 one iteration of every per-peer gossip routine on the peer state the hostile messages built neither panics nor hangs and
@@ -130,6 +167,7 @@ def step (s : PS) (toks : List String) : PS × String :=
   | "diag" :: _ => (s, "dead=0 statechanged=0 bigalloc=0")
   | "gdiag" :: _ => (s, "dead=0 hung=0 badsend=0 bigalloc=0")
   | "bacheck" :: _ => (s, "badpick=0")
+  | "recover" :: rest => (s, recoverOp rest)
   | "ba" :: fn :: rest => (s, baOp fn rest)
   | "ps" :: fn :: rest => psOp s fn rest
   | _ => (s, "bad-op")
